@@ -27,7 +27,7 @@ PROPS = {
                 relevant=lambda e: e["e"] == "c_pkt" and e.get("type") == "PUBLISH" and e.get("dup") == 1),
     "C04": dict(stages=[stages.l1_recv], title="inbound acknowledgement and delivery", prefixes=["C04_"], families=TRACE_FAMILIES,
                 relevant=lambda e: e["e"] == "b_send" and e.get("type") == "PUBLISH" and e.get("qos", 0) > 0),
-    "C05": dict(title="exactly-once non-re-entrant completion; cancel drains", prefixes=["C05_"], families=TRACE_FAMILIES,
+    "C05": dict(stages=[stages.l1_lifecycle], title="exactly-once non-re-entrant completion; cancel drains", prefixes=["C05_"], families=TRACE_FAMILIES,
                 relevant=lambda e: e["e"] in ("cancel_all", "destroy", "cancel_op") or (e["e"] == "call" and e.get("kind") == "disc")),
     "C06": dict(stages=[stages.l1_client], title="PUBLISH order", prefixes=["C06_"], families=TRACE_FAMILIES,
                 relevant=lambda e: e["e"] == "c_pkt" and e.get("type") == "PUBLISH" and e.get("dup") == 1),
@@ -35,7 +35,7 @@ PROPS = {
                 relevant=lambda e: e["e"] == "b_send" and e.get("type") == "CONNACK" and e.get("rm", 65535) < 65535),
     "C08": dict(stages=[stages.l1_client, stages.c08_alloc], title="packet identifiers", prefixes=["C08_"], families=TRACE_FAMILIES,
                 relevant=lambda e: e["e"] == "c_pkt" and e.get("pid", 0) > 1),
-    "C09": dict(title="async_disconnect", prefixes=["C09_"], families=TRACE_FAMILIES,
+    "C09": dict(stages=[stages.l1_lifecycle], title="async_disconnect", prefixes=["C09_"], families=TRACE_FAMILIES,
                 relevant=lambda e: e["e"] == "call" and e.get("kind") == "disc"),
     "C10": dict(title="CONNECT first, CONNACK gate, rotation and timing", prefixes=["C10_"], families=TRACE_FAMILIES,
                 relevant=lambda e: e["e"] == "resolve"),
